@@ -64,6 +64,9 @@ class FakeTransport(asyncio.Transport):
         super().__init__()
         self.conn = conn
         self._closing = False
+        self.buffer = bytearray()  # user-space write buffer (only used when conn.tx_room is not None)
+        self._paused_writing = False
+        self.high, self.low = 64 * 1024, 16 * 1024
 
     def write(self, data: bytes | bytearray | memoryview) -> None:
         data = bytes(data)
@@ -74,7 +77,37 @@ class FakeTransport(asyncio.Transport):
             return
         if self._closing:
             raise RuntimeError("write after close")
-        c.on_client_write(data)
+        if c.tx_room is None:
+            c.on_client_write(data)
+            return
+        # slow peer: the kernel takes what it has room for, the rest waits in the transport's buffer
+        if not self.buffer and c.tx_room > 0:
+            n = min(c.tx_room, len(data))
+            c.tx_room -= n
+            c.on_client_write(data[:n])
+            data = data[n:]
+        if data:
+            self.buffer += data
+            if len(self.buffer) > self.high and not self._paused_writing:
+                self._paused_writing = True
+                c.protocol.pause_writing()
+
+    def _flush(self, n: int) -> None:
+        """the peer read n bytes from its socket: that much of the write buffer moves on"""
+        c = self.conn
+        if c.lost:
+            return
+        chunk = bytes(self.buffer[:n])
+        del self.buffer[:n]
+        c.tx_room = max(0, n - len(chunk))
+        if chunk:
+            c.on_client_write(chunk)
+        if self._paused_writing and len(self.buffer) <= self.low:
+            self._paused_writing = False
+            c.protocol.resume_writing()
+        if self._closing and not self.buffer:
+            c.peer.on_client_close()
+            c.loop.call_soon(c._lost, None)
 
     def writelines(self, list_of_data: Any) -> None:
         self.write(b"".join(list_of_data))
@@ -94,10 +127,20 @@ class FakeTransport(asyncio.Transport):
         self._closing = True
         c = self.conn
         c.client_closed_at = c.loop.time()
+        if self.buffer:
+            return  # like asyncio: buffered data is flushed first, connection_lost follows (see _flush)
         c.peer.on_client_close()
         c.loop.call_soon(c._lost, None)
 
     def abort(self) -> None:
+        # like asyncio: buffered data is thrown away
+        if self.buffer:
+            self.conn.aborted_bytes += len(self.buffer)
+            self.buffer.clear()
+        if self._closing and not self.conn.lost:
+            self.conn.peer.on_client_close()
+            self.conn.loop.call_soon(self.conn._lost, None)
+            return
         self.close()
 
     def get_extra_info(self, name: str, default: Any = None) -> Any:
@@ -120,7 +163,7 @@ class FakeTransport(asyncio.Transport):
         pass
 
     def get_write_buffer_size(self) -> int:
-        return 0
+        return len(self.buffer)
 
 
 class Conn:
@@ -141,6 +184,9 @@ class Conn:
         self.client_eof = False
         self.client_closed_at: float | None = None
         self.dropped_writes = 0
+        self.aborted_bytes = 0
+        self.tx_room: int | None = None  # None: the peer takes every write at once; n: bytes the kernel still accepts (slow reader)
+        self.tx_chunk = 4096  # bytes a slow peer reads per environment step
         self.reset_on_write_after_eof = False
         self.reader = asyncio.StreamReader(limit=limit, loop=self.loop)
         self.protocol = asyncio.StreamReaderProtocol(self.reader, loop=self.loop)
@@ -191,8 +237,18 @@ class Conn:
         self._lost(ConnectionResetError(104, "Connection reset by peer"))
 
     def actions(self) -> list[Action]:
+        if not self.lost and self.tx_room is not None and self.transport.buffer:
+            # the slow peer reads: part of the client's write buffer moves on (also after close(): pending data is flushed)
+            n = self.tx_chunk
+            acts = [Action(f"{self.name}:txflush{n}", [lambda: self.transport._flush(n)])]
+            if self.transport._closing or self.paused or not self.out:
+                return acts
+            return acts + self._rx_actions()
         if self.lost or self.transport._closing or self.paused or not self.out:
             return []
+        return self._rx_actions()
+
+    def _rx_actions(self) -> list[Action]:
         head = self.out[0]
 
         def pop() -> None:
@@ -216,6 +272,7 @@ class Net:
         self.accepted = 0
         self.conns: list[Conn] = []
         self.up_at = 0.0  # listener refuses before this virtual instant
+        self.tx_room: int | None = None  # not None: peers read slowly (see Conn.tx_room)
         self.attempt_log: list[tuple[float, str]] = []
         self._orig: dict[str, Any] = {}
 
@@ -231,6 +288,7 @@ class Net:
         self.attempt_log.append((t, "accepted"))
         self.accepted += 1
         conn = Conn(self.run, peer, f"c{len(self.conns)}", limit=kwargs.get("limit", 2**16))
+        conn.tx_room = self.tx_room
         self.conns.append(conn)
         self.run.add_actor(conn)
         return conn.reader, conn.writer
